@@ -23,7 +23,8 @@
      - (fixed by /repo commit af27b8d: lys_set_features flips feature bits in place and nothing restored them; now
        _lys_set_implemented remembers them in the unres and the revert writes them back and recompiles)
      - with LY_CTX_EXPLICIT_COMPILE `creating`/`implementing` accumulate over calls, so a failed call also
-       removes what earlier successful calls added;
+       removes what earlier successful calls added (since c018937 the dep sets a failed ly_ctx_compile had already
+       compiled are recompiled as well);
      - LYS_MOD_IMPORTED_REV / LATEST_SEARCHDIRS / LATEST_IMPCLB set on existing modules stay;
      - the revert recompiles existing modules (their compiled trees are new objects: data trees dangle).
 
@@ -141,10 +142,15 @@ Record mdesc := mkDesc {
 
 Definition repo := list mdesc.
 
-(* the import callback: with a revision exactly that entry, without one the first entry of the name *)
+(* the import callback: without a revision the first entry of the name; with a revision exactly that entry, and when
+   the repository does not have it a sloppy answer: the first entry of the name (lysp_load_module_check then refuses
+   the module: parsed with the wrong revision) *)
 Definition repo_serve (R : repo) (name rev : N) : option mdesc :=
   if rev =? 0 then find (fun d => d_name d =? name) R
-  else find (fun d => (d_name d =? name) && (d_rev d =? rev)) R.
+  else match find (fun d => (d_name d =? name) && (d_rev d =? rev)) R with
+       | Some d => Some d
+       | None => find (fun d => d_name d =? name) R
+       end.
 
 (* ------------------------------------------------------------------------------------------------ *)
 (* lookups (context.c)                                                                              *)
@@ -375,27 +381,32 @@ Fixpoint has_compiled_import_r (fuel : nat) (s : state) (k : key) : state * bool
       end
   end.
 
-(* _lys_set_implemented; false = error. With a features array the current feature states of the module are
-   remembered in the global unres first (af27b8d); lys_unres_glob_revert restores them. *)
+(* lys_unres_feat_backup (af27b8d, d89c6b6): with a features array the current feature states of the module are
+   remembered in the global unres before lys_set_features is applied; lys_unres_glob_revert restores them *)
+Definition feat_backup (s : state) (k : key) (sel : fsel) (m : modl) : state :=
+  match sel with
+  | FNull => s
+  | _ => with_featsaved (featsaved s ++ [(k, map f_on (m_feats m))]) s
+  end.
+
+(* _lys_set_implemented; false = error *)
 Definition set_implemented (s0 : state) (k : key) (sel : fsel) : state * bool :=
   match find_mod k (mods s0) with
   | None => (s0, false)
   | Some m =>
-      let s := match sel with
-               | FNull => s0
-               | _ => with_featsaved (featsaved s0 ++ [(k, map f_on (m_feats m))]) s0
-               end in
       if m_impl m then
+        let s := feat_backup s0 k sel m in
         match set_features (m_feats m) sel with
         | SfInval => (s, false)
         | SfExist => (s, true)
         | SfOk fs => (add_ev EvChange (upd_s k (fun m => set_tc true (set_feats fs m)) s), true)
         end
       else
-        (* lys_implement *)
-        match get_implemented (m_name m) (mods s) with
-        | Some _ => (s, false)                                           (* LY_EDENIED *)
+        (* lys_implement: collision with another implemented revision first, then the backup and the features *)
+        match get_implemented (m_name m) (mods s0) with
+        | Some _ => (s0, false)                                          (* LY_EDENIED *)
         | None =>
+            let s := feat_backup s0 k sel m in
             match set_features (m_feats m) sel with
             | SfInval => (s, false)
             | r =>
@@ -627,6 +638,9 @@ Fixpoint restore_bits (fs : list feat) (bits : list bool) : list feat :=
 Definition restore_features (s : state) : state :=
   fold_left (fun s e => upd_s (fst e) (fun m => set_feats (restore_bits (m_feats m) (snd e)) m) s) (rev (featsaved s)) s.
 
+Definition mark_all (dss : list (list key)) (s : state) : state :=
+  fold_left (fun s k => upd_s k (fun m => if m_impl m then set_tc true m else m) s) (concat dss) s.
+
 Definition revert (s0 : state) (dss : list (list key)) : state :=
   let s := restore_features s0 in
   (* make the implementing modules non-implemented again *)
@@ -634,10 +648,11 @@ Definition revert (s0 : state) (dss : list (list key)) : state :=
                       (implementing s) s in
   (* remove the created modules from the context and from the dep sets *)
   let '(s2, dss2) := fold_left rm_step (creating s1) (s1, dss) in
-  (* recompile the previous context with the current to_compile flags; a failure is only logged *)
+  (* recompile the previous context; every implemented module of the dep sets is marked first (c018937: the sets a
+     failed ly_ctx_compile had already compiled have their marks cleared); a failure is only logged *)
   match implementing s2, featsaved s2 with
   | [], [] => s2
-  | _, _ => fst (compile_all dss2 s2)
+  | _, _ => fst (compile_all dss2 (mark_all dss2 s2))
   end.
 
 Definition erase (s : state) : state := with_featsaved [] (with_implementing [] (with_creating [] s)).
@@ -718,18 +733,20 @@ Definition step_mid (R : repo) (s : state) (o : op) : state := fst (fst (attempt
 (* internal modules (names 100..105): ietf-yang-metadata, yang, ietf-inet-types, ietf-yang-types,
    ietf-yang-schema-mount, ietf-yang-structure-ext; implemented / single-dep-set / imports as printed by the
    driver command `ctxint` (T2 component ctxint compares this table with the library) *)
-Definition internal (name : N) (impl single : bool) (imps : list key) : modl :=
-  mkMod name 1 impl true false false false [] imps 0 false (if impl then Some [] else None) single false.
+Definition internal (name : N) (impl single hasdep : bool) (imps : list key) : modl :=
+  mkMod name 1 impl true false false false [] imps 0 false (if impl then Some [] else None) single hasdep.
 
 Definition n_internal : nat := 6.
 
+(* lys_has_dep_mods of `yang` is true since /repo commit 64300ce (it has typedefs and an import); it is only read for
+   modules that form a dependency set of their own, which `yang` does not *)
 Definition internal_mods : list modl :=
-  [ internal 100 false true [];
-    internal 101 true false [(100, 1)];
-    internal 102 false true [];
-    internal 103 false true [];
-    internal 104 true false [(102, 1); (103, 1)];
-    internal 105 false true [] ].
+  [ internal 100 false true false [];
+    internal 101 true false true [(100, 1)];
+    internal 102 false true false [];
+    internal 103 false true false [];
+    internal 104 true false false [(102, 1); (103, 1)];
+    internal 105 false true false [] ].
 
 Definition init (expl : bool) : state := mkState internal_mods expl [] [] [] [] false false.
 
